@@ -14,7 +14,10 @@ Definition cid := nat.
 Inductive backend := BFile | BKeep | BRedis | BRedisOld | BDict.
 (* OTick d: d seconds pass (the scheduler's "time passes" step, issued by a clock client between any
    two primitives of the others); the name it is filed under is irrelevant *)
-Inductive lockop := OGet | ORelease | OFail | OIsLocked | OIsFailed | OTick (d : Z).
+(* OReopen: the store is closed and opened again (dict_store with a backing file: close() then a new
+   dict_store(FILE); file stores: a new store object on the same directory; redis: a new connection);
+   every client continues with fresh handles.  Like OTick it is issued by the environment client. *)
+Inductive lockop := OGet | ORelease | OFail | OIsLocked | OIsFailed | OTick (d : Z) | OReopen.
 
 (* constants of the source (Gen/LockConsts.v instantiates them) and the abstract clock *)
 Record params := mkParams {
@@ -37,6 +40,9 @@ Inductive prim :=
 | PTick (d : Z)                   (* d seconds pass: the identity on every store (no lock of the file, redis and dict
                                      backends carries an expiry; the keep-alive backend is modelled on a frozen clock,
                                      its behaviour in time is Model/Keepalive.v) *)
+| PReopen                         (* close + reopen of a persistent store: the identity on the lock state (a lock held
+                                     through a handle of the closed store stays held: the crash residue that
+                                     remove_locks clears; a failed marker stays) *)
 | PUnknown (k : nat).             (* any other store access: never issued by the model *)
 
 Inductive resp := RB (b : bool) | RV (v : option Z) | RU | RE.
@@ -60,7 +66,7 @@ Definition dict_op (P : params) (st : lkstate) (o : lockop) (n : name) : lkstate
       match st1 n with Some v => (st1, RB (Z.eqb v (p_dF P))) | None => (st1, RE) end
   | OIsLocked => (st, RB (Z.eqb cur (p_dL P) || Z.eqb cur (p_dF P)))
   | OIsFailed => (st, RB (Z.eqb cur (p_dF P)))
-  | OTick _ => (st, RU)
+  | OTick _ | OReopen => (st, RU)
   end.
 
 Definition runp (P : params) (st : lkstate) (p : prim) : lkstate * resp :=
@@ -76,7 +82,7 @@ Definition runp (P : params) (st : lkstate) (p : prim) : lkstate * resp :=
   | RGet n => (st, RV (st n))
   | RDel n => match st n with Some _ => (upd st n None, RB true) | None => (st, RB false) end
   | DOp o n => dict_op P st o n
-  | PTick _ => (st, RU)
+  | PTick _ | PReopen => (st, RU)
   | PUnknown _ => (st, RE)
   end.
 
@@ -102,6 +108,7 @@ Definition op_prim (P : params) (b : backend) (o : lockop) (n : name) (pc : nat)
       | OIsLocked, _ => PExists n
       | OIsFailed, O => PExists n | OIsFailed, S _ => PStat n
       | OTick d, _ => PTick d
+      | OReopen, _ => PReopen
       end
   | BRedis =>
       match o, pc with
@@ -111,6 +118,7 @@ Definition op_prim (P : params) (b : backend) (o : lockop) (n : name) (pc : nat)
       | OIsLocked, _ => RGet n
       | OIsFailed, _ => RGet n
       | OTick d, _ => PTick d
+      | OReopen, _ => PReopen
       end
   | BRedisOld =>
       match o, pc with
@@ -120,8 +128,9 @@ Definition op_prim (P : params) (b : backend) (o : lockop) (n : name) (pc : nat)
       | OIsLocked, _ => RGet n
       | OIsFailed, _ => RGet n
       | OTick d, _ => PTick d
+      | OReopen, _ => PReopen
       end
-  | BDict => match o with OTick d => PTick d | _ => DOp o n end
+  | BDict => match o with OTick d => PTick d | OReopen => PReopen | _ => DOp o n end
   end.
 
 Definition redis_fail_next (P : params) (pc : nat) (r : resp) : outcome :=
@@ -147,7 +156,7 @@ Definition op_next (P : params) (b : backend) (o : lockop) (pc : nat) (r : resp)
       | OIsFailed, O, RB false => Done (OB false)
       | OIsFailed, S _, RV (Some mt) => Done (OB (isfailedv P b mt))
       | OIsFailed, S _, RV None => Done (OB false)   (* OSError: pass *)
-      | OTick _, _, RU => Done OU
+      | OTick _, _, RU | OReopen, _, RU => Done OU
       | _, _, _ => Done OE
       end
   | BRedis =>
@@ -159,7 +168,7 @@ Definition op_next (P : params) (b : backend) (o : lockop) (pc : nat) (r : resp)
       | OIsLocked, RV None => Done (OB false)
       | OIsFailed, RV (Some v) => Done (OB (Z.eqb v (p_F P)))
       | OIsFailed, RV None => Done (OB false)
-      | OTick _, RU => Done OU
+      | OTick _, RU | OReopen, RU => Done OU
       | _, _ => Done OE
       end
   | BRedisOld =>
@@ -173,7 +182,7 @@ Definition op_next (P : params) (b : backend) (o : lockop) (pc : nat) (r : resp)
       | OIsLocked, _, RV None => Done (OB false)
       | OIsFailed, _, RV (Some v) => Done (OB (Z.eqb v (p_F P)))
       | OIsFailed, _, RV None => Done (OB false)
-      | OTick _, _, RU => Done OU
+      | OTick _, _, RU | OReopen, _, RU => Done OU
       | _, _, _ => Done OE
       end
   | BDict =>
@@ -269,6 +278,7 @@ Definition spec_op (o : lockop) (c : cid) (g : gst) : gst * ores :=
   | OIsLocked => (g, OB (match g with GFree => false | _ => true end))
   | OIsFailed => (g, OB (match g with GFailed => true | _ => false end))
   | OTick _ => (g, OU)             (* time passes: the atomic lock does not change *)
+  | OReopen => (g, OU)             (* the store is reopened: the atomic lock does not change *)
   end.
 
 (* ------------------------------------------------------------------ comparison (for the tie) *)
@@ -276,6 +286,7 @@ Definition lockop_eqb (a b : lockop) : bool :=
   match a, b with
   | OGet, OGet | ORelease, ORelease | OFail, OFail | OIsLocked, OIsLocked | OIsFailed, OIsFailed => true
   | OTick x, OTick y => Z.eqb x y
+  | OReopen, OReopen => true
   | _, _ => false
   end.
 
@@ -287,6 +298,7 @@ Definition prim_eqb (a b : prim) : bool :=
       Nat.eqb n m && Z.eqb v w
   | DOp o n, DOp q m => lockop_eqb o q && Nat.eqb n m
   | PTick x, PTick y => Z.eqb x y
+  | PReopen, PReopen => true
   | _, _ => false
   end.
 
